@@ -18,7 +18,7 @@ from ..law import Law, Violation, Skip
 from ..values import dec, enc, CODES9
 
 RULE = 'C01: arbitrary Unicode strings, token soups, truncated/unbalanced formulas; every supported function at arity 0..4 over a 24-value pool; host callbacks that return or raise anything; coverage-guided byte fuzzing'
-ASSUMPTIONS = ['"bounded time" = at most 50000 + 2000*len(text) + 200*size(operands) Python line events inside hotxlfp/ply; cost hidden inside C primitives (the regex scanner) is bounded separately by the repetitive law: 2 s of thread CPU time for inputs of at most ~110 characters, a factor of about 2000 above normal; literal exponents and factorial arguments are kept small',
+ASSUMPTIONS = ['"bounded time" = at most 50000 + 2000*len(text) + 200*size(operands) Python line events inside hotxlfp/ply; cost hidden inside C primitives is bounded separately: by the repetitive law for the regex scanner (2 s of thread CPU time for inputs of at most ~110 characters, a factor of about 2000 above normal) and by large_host_values for the walk over host lists (CPU time of the evaluating thread at two sizes); literal exponents and factorial arguments are kept small',
                'host faults are Exception subclasses (KeyboardInterrupt/SystemExit/GeneratorExit propagate by Python convention)',
                'fuzzing campaigns are pinned by -seed/-runs only approximately; the saved crashing input is the reproducible unit']
 
@@ -284,6 +284,62 @@ def check_patho(case):
     if dt > CPU_LIMIT_S:
         raise Violation('parse of a %d-character input (%r repeated %d times after %r) used %.1f s of CPU time; ordinary inputs of this length take about a millisecond' % (len(text), case['frag'] + case['frag2'], case['n'], case['prefix'], dt),
                         round(dt, 2), 'about 0.001 s')
+
+
+# ---------------------------------------------------------------- host values the size of a sheet
+
+BIG_FORMULAS = ['SUM(v_big)', 'COUNT(v_big)', 'AND(v_big)', 'OR(v_big)', 'MAX(v_big)', 'MIN(v_big)', 'COUNTA(v_big)', 'AVERAGE(v_big)', 'SUMIF(v_big,">0")', 'COUNTIF(v_big,">1")', 'MATCH(2,v_big,0)', 'INDEX(v_big,5,1)',
+                'MEDIAN(v_big)', 'LARGE(v_big,3)', 'COUNTBLANK(v_big)', 'XOR(v_big)', 'SUM(A1:B9)', 'SUM(v_big,v_big)', 'VAR(v_big)', 'STDEV(v_big)', 'MODE(v_big)', 'AVEDEV(v_big)', 'SUMIFS(v_flat,v_flat,">0")',
+                'AVERAGEIF(v_flat,">0")', 'MAXIFS(v_flat,v_flat,">0")', 'GEOMEAN(v_big)', 'HARMEAN(v_big)', 'SUM(v_big*2)', 'SUM(v_flat+v_flat)', 'TEXTJOIN("",TRUE,v_big)', 'CONCATENATE(v_flat)', 'ISERROR(v_big)', 'N(v_big)',
+                'CHOOSE(1,v_big,2)', 'IF(TRUE,v_big,0)', 'IFERROR(v_big,0)', 'LEN(v_flat)', 'v_flat&"x"', 'v_flat=v_flat', 'SUM(v_deep)', 'COUNT(v_rows)', 'MAX(v_rows,v_big)', 'AND(v_empty)', 'SUM(v_empty,1)']
+BIG_CPU_S = 4.0
+
+
+def enum_big(tier, shard, nshards):
+    sizes = [(20000, 80000)] if tier == 'quick' else [(20000, 80000), (60000, 240000)]
+    i = 0
+    for f in BIG_FORMULAS:
+        for small, large in sizes:
+            i += 1
+            if i % nshards == shard:
+                yield [f, small, large]
+
+
+def check_big(case):
+    """A range the size of a sheet column (tens of thousands of rows) is an ordinary host value.  The cost of an evaluation over it may grow with its size,
+    not with the square of it: four times the rows must not cost more than eight times the CPU time once the time is above the noise, nor more than
+    BIG_CPU_S seconds of this thread's CPU time (about ten times what the slowest of these formulas takes)."""
+    import time
+    f, small, large = case
+
+    def run(n):
+        P = hot().Parser()
+        big = [[k % 7 + 1, 2] for k in range(n)]
+        P.set_variable('v_big', big)
+        P.set_variable('v_flat', [k % 7 + 1 for k in range(n)])
+        P.set_variable('v_rows', [[k % 7 + 1] for k in range(n)])
+        P.set_variable('v_empty', [[] for k in range(n)] + [[1]])
+        deep = [1]
+        for k in range(min(n, 20000)):
+            deep = [deep, k % 5]
+        P.set_variable('v_deep', deep)
+        P.on('callRangeValue', lambda a, b, setter: setter(big))
+        t0 = time.thread_time()
+        try:
+            r = P.parse(f)
+        except Exception as e:
+            raise Violation('parse(%r) over a host value of %d rows raised %s: %s' % (f, n, type(e).__name__, _safe(e)), type(e).__name__, 'returns a record')
+        dt = time.thread_time() - t0
+        m = well_formed(r)
+        if m:
+            raise Violation('parse(%r) over a host value of %d rows -> %s' % (f, n, m), _safe_repr(r)[:200], 'well-formed record')
+        return dt
+    t1 = run(small)
+    if t1 > BIG_CPU_S:
+        raise Violation('%s over a host value of %d rows used %.1f s of CPU time (such an evaluation takes a few hundredths of a second)' % (f, small, t1), round(t1, 2), 'below %.0f s' % BIG_CPU_S)
+    t2 = run(large)
+    if t2 > BIG_CPU_S * (large / 80000.0) and t2 > 8 * max(t1, 0.05):
+        raise Violation('%s over a host value of %d rows used %.2f s of CPU time, over %d rows %.1f s: four times the rows, %.0f times the time' % (f, small, t1, large, t2, t2 / max(t1, 1e-9)), round(t2, 2), 'about %.2f s' % (4 * t1))
 
 
 # ---------------------------------------------------------------- records are the caller's own
@@ -695,11 +751,15 @@ LAWS = [
         key=lambda c: 'thread' if 'REENTER' not in THREAD_FORMULAS[c['f']] else 'reentry',
         rule='22 formulas (empty, valid, failing in every way, a custom function that evaluates on the same parser, two levels deep) evaluated in a thread other than the one that built the parser, with line tracing: '
              'the call returns a well-formed record; an escaping exception is reported, and so is a thread that stops executing lines for 8 s without returning (blocked on a lock - a step budget cannot see that)'),
+    Law('large_host_values', check_big, enumerate=enum_big, shards=(16, 16), key=lambda c: 'large-host-value', guard=1200,
+        rule='44 formulas (aggregates, criteria functions, lookups, element-wise arithmetic, text joins) over host values the size of a sheet column: a variable or a listener-served range of 20000 and of 80000 rows (two-cell rows, one-cell rows, a flat list, '
+             'empty rows, a list nested 20000 deep; in thorough also 60000 / 240000 rows): a well-formed record; four times the rows must not cost more than eight times the CPU time of the evaluating thread once that is above 4 s '
+             '(the slowest of these formulas takes about 0.4 s for 80000 rows)'),
     Law('fuzz', check_fuzz, enumerate=enum_fuzz, shards=(4, 16), weight=fuzz_weight, nt_weight=fuzz_ntweight, key=lambda c: 'fuzz', guard=3700,
         rule='atheris/libFuzzer campaigns on parse() with coverage instrumentation of hotxlfp and ply, a dictionary of all function names and lexemes, alternately an empty and a seeded corpus, the oracle inside the target '
              '(4 x 12000 executions in quick, 16 x 400000 in thorough); evaluations = executed units, distinct non-trivial counted conservatively as the number of coverage-increasing corpus entries'),
 ]
 
-LEVEL_TEXT = 'Evaluation from a thread other than the one that built the parser and re-entrant evaluation, with blocked-thread detection; Generated-input search for a counter-example to totality: Hypothesis over four string generators and over host-callback behaviours, an enumerated function x arity x value-pool sweep (arities 0-2 complete), and coverage-guided atheris campaigns, all with the same well-formedness oracle and a deterministic step budget for termination.'
+LEVEL_TEXT = 'Host values the size of a sheet column (cost must grow with the size, not with its square); Evaluation from a thread other than the one that built the parser and re-entrant evaluation, with blocked-thread detection; Generated-input search for a counter-example to totality: Hypothesis over four string generators and over host-callback behaviours, an enumerated function x arity x value-pool sweep (arities 0-2 complete), and coverage-guided atheris campaigns, all with the same well-formedness oracle and a deterministic step budget for termination.'
 LEVEL_NOTE = 'Trusted: the oracle in hx/checks/c01.py, sys.settrace line counting. C-level cost (big integers) is bounded by construction of the inputs, not observed.'
 TECHNIQUE = 'property-based testing (Hypothesis) + exhaustive arity/value-pool sweep + coverage-guided fuzzing (atheris/libFuzzer) with an in-target oracle and deterministic step budget'
